@@ -3,6 +3,7 @@ package rules
 import (
 	"go/token"
 	"go/types"
+	"sort"
 	"strings"
 
 	"golang.org/x/tools/go/ssa"
@@ -14,7 +15,7 @@ import (
 func init() {
 	register(&Prop{
 		ID:          "C12",
-		Explanation: "Decides the shape of the refresh protocol (not its schedules): the provider refresh function value is called only in refreshSession, which is called only from refreshSessionIfNeeded; that call site is reached only on paths where ObtainLock returned nil, then SessionStore.Load returned a non-nil session without error, the request's session object was overwritten from it, and a needsRefresh evaluated after the overwrite was true; on every path on which the lock was obtained the deferred function that releases it has been registered, and that function calls ReleaseLock on every path with a non-nil session; once the first needsRefresh is true the function returns nil only because the post-reload needsRefresh was false, or returns validateSession's verdict evaluated after the refresh attempt; validateSession returns nil only if the session is not expired and the provider validator accepted it; getValidatedSession returns a nil session with every error and the loader calls store.Clear for every error other than ErrNoCookie; Manager.Save mints a new ticket only when the request's ticket could not be decoded and otherwise saves under the request's ticket; the redis lock maps redislock's sentinels to the session-lock sentinels the middleware's retry loop tests. Added during the build: Manager.Clear expires the cookie on every path (R8, shared with C11.R2); every provider redeemRefreshToken stores access token, issue time, expiry and — when the response carries one — the refresh token on every success path (R9). Round 3: Age() is Clock.Now() (truncated by at most one second) minus *CreatedAt, unrounded, and needsRefresh is Age() > period (R10); the token-validation helper answers true only for status 200 (R11).",
+		Explanation: "Decides the shape of the refresh protocol (not its schedules): the provider refresh function value is called only in refreshSession, which is called only from refreshSessionIfNeeded; that call site is reached only on paths where ObtainLock returned nil, then SessionStore.Load returned a non-nil session without error, the request's session object was overwritten from it, and a needsRefresh evaluated after the overwrite was true; on every path on which the lock was obtained the deferred function that releases it has been registered, and that function calls ReleaseLock on every path with a non-nil session; once the first needsRefresh is true the function returns nil only because the post-reload needsRefresh was false, or returns validateSession's verdict evaluated after the refresh attempt; validateSession returns nil only if the session is not expired and the provider validator accepted it; getValidatedSession returns a nil session with every error and the loader calls store.Clear for every error other than ErrNoCookie; Manager.Save mints a new ticket only when the request's ticket could not be decoded and otherwise saves under the request's ticket; the redis lock maps redislock's sentinels to the session-lock sentinels the middleware's retry loop tests. Added during the build: Manager.Clear expires the cookie on every path (R8, shared with C11.R2); every provider redeemRefreshToken stores access token, issue time, expiry and — when the response carries one — the refresh token on every success path (R9). Round 3: Age() is Clock.Now() (truncated by at most one second) minus *CreatedAt, unrounded, and needsRefresh is Age() > period (R10); the token-validation helper answers true only for status 200 (R11). Round 4: the cookie store's Save expires every presented session cookie it did not overwrite, so a refreshed session supersedes what the browser holds (R12, shared with C10.R4); every Provider.ValidateSession answers true only as, or after, a true verdict of validateToken or of the ValidateSession it embeds, or after an error-free ID-token verification (R13). needsRefresh may be folded into its caller: the staleness test is then recognised as the comparison Age() > refreshPeriod itself.",
 		NotDecided:  "'exactly one refresh' under interleavings, lock expiry versus identity-provider latency, token rotation at the provider: schedules and histories are not explored.",
 		Run:         runC12,
 	})
@@ -22,9 +23,9 @@ func init() {
 
 // c12Anchors resolves the anchors of the refresh protocol rules.
 type c12Anchors struct {
-	rin, rs, vs, needs, obtain, release, isExpired *ssa.Function
-	refresherF, validatorF                         *types.Var
-	loadM, clearM                                  *types.Func
+	rin, rs, vs, needs, obtain, release, isExpired, ageFn *ssa.Function
+	refresherF, validatorF, periodF                       *types.Var
+	loadM, clearM                                         *types.Func
 }
 
 func (c *Ctx) c12Anchors(rule string) *c12Anchors {
@@ -32,7 +33,8 @@ func (c *Ctx) c12Anchors(rule string) *c12Anchors {
 		rin:        c.Fn(rule, "(*pkg/middleware.storedSessionLoader).refreshSessionIfNeeded"),
 		rs:         c.Fn(rule, "(*pkg/middleware.storedSessionLoader).refreshSession"),
 		vs:         c.Fn(rule, "(*pkg/middleware.storedSessionLoader).validateSession"),
-		needs:      c.Fn(rule, "pkg/middleware.needsRefresh"),
+		ageFn:      c.Fn(rule, "(*pkg/apis/sessions.SessionState).Age"),
+		periodF:    c.Field(rule, "pkg/middleware.storedSessionLoader.refreshPeriod"),
 		refresherF: c.Field(rule, "pkg/middleware.storedSessionLoader.sessionRefresher"),
 		validatorF: c.Field(rule, "pkg/middleware.storedSessionLoader.sessionValidator"),
 		obtain:     c.Fn(rule, "(*pkg/apis/sessions.SessionState).ObtainLock"),
@@ -41,10 +43,105 @@ func (c *Ctx) c12Anchors(rule string) *c12Anchors {
 		loadM:      c.Method(rule, "pkg/apis/sessions.SessionStore.Load"),
 		clearM:     c.Method(rule, "pkg/apis/sessions.SessionStore.Clear"),
 	}
-	if a.rin == nil || a.rs == nil || a.vs == nil || a.needs == nil || a.refresherF == nil || a.validatorF == nil || a.obtain == nil || a.release == nil || a.isExpired == nil || a.loadM == nil || a.clearM == nil {
+	// needsRefresh is optional: where it was folded into its caller, the staleness test is recognised as the
+	// comparison session.Age() > refreshPeriod itself (see needsEvents)
+	if c.P.Func("pkg/middleware.needsRefresh") != nil {
+		a.needs = c.Fn(rule, "pkg/middleware.needsRefresh")
+	}
+	if a.ageFn == nil || a.periodF == nil {
+		return nil
+	}
+	if a.rin == nil || a.rs == nil || a.vs == nil || a.refresherF == nil || a.validatorF == nil || a.obtain == nil || a.release == nil || a.isExpired == nil || a.loadM == nil || a.clearM == nil {
 		return nil
 	}
 	return a
+}
+
+// needEv is one evaluation of "does this session need a refresh" on a path.
+type needEv struct {
+	Idx         int
+	True, Known bool
+}
+
+// needsEvents lists the staleness tests applied to sess before step at: calls of needsRefresh where that helper
+// exists, otherwise the comparisons session.Age() > s.refreshPeriod (and a false s.refreshPeriod > 0, which
+// answers "no" without looking at the age).
+func (a *c12Anchors) needsEvents(p *walk.Path, at int, sess ssa.Value) []needEv {
+	var out []needEv
+	if a.needs != nil {
+		for _, k := range p.Find(walk.Static(a.needs), at) {
+			if p.Resolve(p.Arg(k, 1)).V != sess {
+				continue
+			}
+			b, known := p.ResultTruth(k.DV(), -1, at)
+			out = append(out, needEv{k.Idx, b, known})
+		}
+		return out
+	}
+	isPeriod := func(dv walk.DV) bool { return walk.IsFieldLoad(p.Resolve(dv).V, a.periodF) }
+	for _, at0 := range p.Atoms(at) {
+		b, ok := at0.DV.V.(*ssa.BinOp)
+		if !ok || at0.IsNil {
+			continue
+		}
+		zeroR, zeroL := false, false
+		if k, ok := ConstInt(p.Resolve(p.Op(b.Y, at0.DV)).V); ok && k == 0 {
+			zeroR = true
+		}
+		if k, ok := ConstInt(p.Resolve(p.Op(b.X, at0.DV)).V); ok && k == 0 {
+			zeroL = true
+		}
+		disabled := false
+		switch {
+		case b.Op == token.GTR && zeroR && isPeriod(p.Op(b.X, at0.DV)): // period > 0
+			disabled = !at0.Val
+		case b.Op == token.LSS && zeroL && isPeriod(p.Op(b.Y, at0.DV)): // 0 < period
+			disabled = !at0.Val
+		case b.Op == token.LEQ && zeroR && isPeriod(p.Op(b.X, at0.DV)): // period <= 0
+			disabled = at0.Val
+		}
+		if disabled {
+			out = append(out, needEv{at0.Step, false, true})
+		}
+	}
+	for _, k := range p.Find(walk.Static(a.ageFn), at) {
+		if p.Resolve(p.Arg(k, 0)).V != sess {
+			continue
+		}
+		kv, _ := k.In.(ssa.Value)
+		compared := false
+		if kv != nil && kv.Referrers() != nil {
+			for _, r := range *kv.Referrers() {
+				if b, ok := r.(*ssa.BinOp); ok && (b.Op == token.GTR || b.Op == token.LSS || b.Op == token.LEQ || b.Op == token.GEQ) {
+					compared = true
+				}
+			}
+		}
+		if !compared {
+			continue // e.g. the age printed in a log line
+		}
+		ev := needEv{Idx: k.Idx}
+		for i := k.Idx + 1; i < at && i < len(p.Steps); i++ {
+			st := p.Steps[i]
+			b, ok := st.In.(*ssa.BinOp)
+			if !ok || st.F != k.Step.F || st.I != k.Step.I {
+				continue
+			}
+			dv := walk.DV{V: b, I: st.I, F: st.F}
+			switch {
+			case b.Op == token.GTR && b.X == kv && isPeriod(p.Op(b.Y, dv)): // Age() > period
+				ev.True, ev.Known = p.Truth(dv, at)
+			case b.Op == token.LSS && b.Y == kv && isPeriod(p.Op(b.X, dv)): // period < Age()
+				ev.True, ev.Known = p.Truth(dv, at)
+			case b.Op == token.LEQ && b.X == kv && isPeriod(p.Op(b.Y, dv)): // Age() <= period
+				t, k := p.Truth(dv, at)
+				ev.True, ev.Known = !t, k
+			}
+		}
+		out = append(out, ev)
+	}
+	sort.Slice(out, func(i, j int) bool { return out[i].Idx < out[j].Idx })
+	return out
 }
 
 func runC12(c *Ctx) {
@@ -59,6 +156,8 @@ func runC12(c *Ctx) {
 	r.Rule("R9-refresh-adopts-tokens", "every provider redeemRefreshToken stores access token, issue time, expiry and (when the response carries one) the refresh token on every success path", 3)
 	r.Rule("R10-age-exact", "Age() = Clock.Now() (truncated by at most 1s) - *CreatedAt, unrounded; needsRefresh = Age() > period", 2)
 	r.Rule("R11-validation-needs-200", "the token-validation helper behind ValidateSession answers true only for status 200 of an error-free request with a non-empty token (shared with C14.R7)", 1)
+	r.Rule("R12-saved-session-supersedes", "a re-saved (refreshed) cookie session replaces what the browser holds: Save expires every presented session cookie it did not overwrite (shared with C10.R4)", 3)
+	r.Rule("R13-validator-asks-provider", "every Provider.ValidateSession answers true only after validateToken or the embedded ValidateSession answered true, or the ID-token verifier returned no error", 10)
 	r.Rule("R7-lock-sentinels", "redis lock maps redislock sentinels to the session-lock sentinels the retry loop tests", 6)
 
 	rule := "R1-single-refresh-site"
@@ -178,6 +277,8 @@ func runC12(c *Ctx) {
 	runC12R9(c, "R9-refresh-adopts-tokens")
 	runC12R10(c, "R10-age-exact")
 	runC14R7(c, "R11-validation-needs-200")
+	runC10R4(c, "R12-saved-session-supersedes")
+	runValidatorAsksProvider(c, "R13-validator-asks-provider")
 
 	runTicketReuseRule(c, "R6-ticket-reuse")
 
@@ -253,7 +354,7 @@ func runC12(c *Ctx) {
 
 // checkRefreshProtocol (C12.R2, also C13): the provider refresh is reached only after lock -> reload -> overwrite -> re-check.
 func (c *Ctx) checkRefreshProtocol(rule string, a *c12Anchors) {
-	rin, rs, needs, obtain, loadM := a.rin, a.rs, a.needs, a.obtain, a.loadM
+	rin, rs, obtain, loadM := a.rin, a.rs, a.obtain, a.loadM
 	sessP := rin.Params[3]
 	// ---- R2 ---------------------------------------------------------------------------------
 	sites := 0
@@ -301,9 +402,13 @@ func (c *Ctx) checkRefreshProtocol(rule string, a *c12Anchors) {
 				fail("the request's session object is not overwritten with the reloaded session before the refresh")
 				continue
 			}
-			if _, ok := Has(p, at, Need{M: walk.Static(needs), Idx: -1, Out: IsTrue, Where: func(p *walk.Path, k walk.Call) bool {
-				return k.Idx > overwrite && p.Resolve(p.Arg(k, 1)).V == sessP
-			}}); !ok {
+			retested := false
+			for _, ev := range a.needsEvents(p, at, sessP) {
+				if ev.Idx > overwrite && ev.Known && ev.True {
+					retested = true
+				}
+			}
+			if !retested {
 				fail("needsRefresh is not re-evaluated as true on the reloaded session before the refresh (a peer's refresh would be repeated)")
 				continue
 			}
@@ -318,7 +423,7 @@ func (c *Ctx) checkRefreshProtocol(rule string, a *c12Anchors) {
 
 // checkStaleResult (C12.R4, also C14.R2): a stale session is accepted only via validateSession's verdict.
 func (c *Ctx) checkStaleResult(rule string, a *c12Anchors) {
-	rin, rs, vs, needs, isExpired, validatorF := a.rin, a.rs, a.vs, a.needs, a.isExpired, a.validatorF
+	rin, rs, vs, isExpired, validatorF := a.rin, a.rs, a.vs, a.isExpired, a.validatorF
 	sessP := rin.Params[3]
 	// ---- R4 ---------------------------------------------------------------------------------
 	c.Walk(rule, rin, func(p *walk.Path) {
@@ -327,12 +432,12 @@ func (c *Ctx) checkStaleResult(rule string, a *c12Anchors) {
 		}
 		at := p.End()
 		ret, _ := p.ReturnDV(0)
-		nr := p.Find(walk.Static(needs), at)
+		nr := a.needsEvents(p, at, sessP)
 		if len(nr) == 0 {
 			c.bad(rule, "first-check|"+fnKey(rin), p.Exit, "refreshSessionIfNeeded returns without evaluating needsRefresh", p, at)
 			return
 		}
-		if b, k := p.ResultTruth(nr[0].DV(), -1, at); k && !b {
+		if nr[0].Known && !nr[0].True {
 			return // fresh enough: nothing to do
 		}
 		if definitelyNonNil(p, ret, at) {
@@ -340,7 +445,7 @@ func (c *Ctx) checkStaleResult(rule string, a *c12Anchors) {
 		}
 		key := "stale-result|" + fnKey(rin)
 		if len(nr) >= 2 {
-			if b, k := p.ResultTruth(nr[len(nr)-1].DV(), -1, at); k && !b && DefinitelyNil(p, ret, at) {
+			if last := nr[len(nr)-1]; last.Known && !last.True && DefinitelyNil(p, ret, at) {
 				c.ok(rule, key+"|peer-refreshed", p.Exit, "reloaded session no longer needs a refresh")
 				return
 			}
@@ -577,9 +682,12 @@ func runTicketReuseRule(c *Ctx, rule string) {
 // refresh period in which a stale session is served without refresh or validation.
 func runC12R10(c *Ctx, rule string) {
 	age := c.Fn(rule, "(*pkg/apis/sessions.SessionState).Age")
-	needs := c.Fn(rule, "pkg/middleware.needsRefresh")
+	var needs *ssa.Function
+	if c.P.Func("pkg/middleware.needsRefresh") != nil {
+		needs = c.Fn(rule, "pkg/middleware.needsRefresh")
+	}
 	createdF := c.Field(rule, "pkg/apis/sessions.SessionState.CreatedAt")
-	if age == nil || needs == nil || createdF == nil {
+	if age == nil || createdF == nil {
 		return
 	}
 	c.Walk(rule, age, func(p *walk.Path) {
@@ -635,6 +743,32 @@ func runC12R10(c *Ctx, rule string) {
 			c.bad(rule, key, p.Exit, sprintf("the session's age is not now-minus-CreatedAt with at most one second of truncation (from CreatedAt: %v, from Now within 1s: %v)", okCreated, okNow), p, p.End())
 		}
 	})
+	if needs == nil {
+		// the helper was folded into its caller: every staleness test there is session.Age() > s.refreshPeriod
+		a := c.c12Anchors(rule)
+		if a == nil {
+			return
+		}
+		n := 0
+		c.Walk(rule, a.rin, func(p *walk.Path) {
+			for _, ev := range a.needsEvents(p, p.End(), a.rin.Params[3]) {
+				if _, isAge := p.Steps[ev.Idx].In.(*ssa.Call); !isAge {
+					continue
+				}
+				n++
+				key := "compares-age|" + fnKey(a.rin)
+				if ev.Known {
+					c.ok(rule, key, p.Steps[ev.Idx].In, "session.Age() > refreshPeriod")
+				} else {
+					c.bad(rule, key, p.Steps[ev.Idx].In, "the session's age is consulted but the path is not decided by session.Age() > refreshPeriod", p, p.End())
+				}
+			}
+		})
+		if n == 0 {
+			c.R.Unknown(rule, "compares-age|none", c.P.Pos(a.rin.Pos()), "no staleness test found in refreshSessionIfNeeded")
+		}
+		return
+	}
 	// needsRefresh: true only if period > 0 and Age() > period
 	c.Walk(rule, needs, func(p *walk.Path) {
 		rv, ok := p.ReturnDV(0)
@@ -668,4 +802,71 @@ func runC12R10(c *Ctx, rule string) {
 			c.bad(rule, key, p.Exit, "needsRefresh can be true/false other than by session.Age() > refreshPeriod", p, p.End())
 		}
 	})
+}
+
+// runValidatorAsksProvider (C12.R13): re-validation of a stale session is an answer of the identity provider. Every
+// implementation of Provider.ValidateSession (walked with helpers inlined) returns a possibly-true verdict only
+// as, or after, a true verdict of validateToken / of the ValidateSession it embeds, or after an error-free
+// IDTokenVerifier.Verify. A branch that answers true from local data alone (an unverified claim of the stored
+// token, a configuration list) honours sessions the provider would no longer vouch for.
+func runValidatorAsksProvider(c *Ctx, rule string) {
+	m := c.Method(rule, "providers.Provider.ValidateSession")
+	vt := c.Fn(rule, "providers.validateToken")
+	if m == nil || vt == nil {
+		return
+	}
+	impls := map[*ssa.Function]bool{}
+	for _, impl := range c.P.Implementations(m) {
+		if c.P.InModule(impl) && len(impl.Blocks) > 0 && impl.Synthetic == "" {
+			impls[impl] = true
+		}
+	}
+	// implementations are anchors of this rule: a delegate call is judged by its verdict, not looked into
+	for impl := range impls {
+		c.Fn(rule, prog.Name(impl))
+	}
+	asked := func(p *walk.Path, cl walk.Call, self *ssa.Function) (isAsk bool, yes bool) {
+		if sc := cl.C.StaticCallee(); sc != nil {
+			if sc == vt || (impls[sc] && sc != self) {
+				b, k := p.ResultTruth(cl.DV(), -1, p.End())
+				return true, k && b
+			}
+			return false, false
+		}
+		if cl.C.IsInvoke() && cl.C.Method.Name() == "Verify" && cl.C.Signature().Results().Len() == 2 {
+			isNil, k := p.ResultNil(cl.DV(), 1, p.End())
+			return true, k && isNil
+		}
+		return false, false
+	}
+	for impl := range impls {
+		impl := impl
+		key := "true-verdict|" + fnKey(impl)
+		n, bad := 0, false
+		c.Walk(rule, impl, func(p *walk.Path) {
+			rv, ok := p.ReturnDV(0)
+			if !ok || bad {
+				return
+			}
+			if b, k := p.Truth(rv, p.End()); k && !b {
+				return
+			}
+			n++
+			if cl, ok := extractOfCall(p, rv, 0); ok {
+				if isAsk, _ := asked(p, cl, impl); isAsk {
+					return // the provider-backed verdict itself
+				}
+			}
+			for _, cl := range p.Calls() {
+				if _, yes := asked(p, cl, impl); yes {
+					return
+				}
+			}
+			bad = true
+			c.bad(rule, key, p.Exit, prog.Name(impl)+" can answer true on a path where neither validateToken nor the embedded ValidateSession answered true nor the ID-token verifier accepted the stored token: a stale session whose refresh failed is honoured without the provider vouching for it", p, p.End())
+		})
+		if !bad {
+			c.R.OK(rule, key, c.P.Pos(impl.Pos()), sprintf("%d possibly-true return(s), each a provider-backed verdict", n))
+		}
+	}
 }
